@@ -7,6 +7,7 @@ T: hypothesis drives long random histories against the real package, records one
    (error path too) and TLC validates the traces against Trace_Checks.tla.
 """
 import math
+import os
 import random
 import traceback
 import warnings
@@ -281,6 +282,11 @@ def record_traces(w, n, maxlen, seed):
     return traces
 
 
+def rng_sample(lst, n, seed):
+    r = random.Random(seed + 4242)
+    return lst if len(lst) <= n else r.sample(lst, n)
+
+
 def suite_trace(wd):
     """run the repository's test suite under harness/suite_plugin.py; returns the (run-length compressed) event list"""
     import json
@@ -344,6 +350,30 @@ def run(tier, seed):
             v.case(("S", repr(x["hist"])), sample=x["hist"][:6] if len(v.samples) < 3 else None)
             if len(v.violations) > 200:
                 break
+        # R under `python -O` (the __debug__ coupling): DebugOn = FALSE in the model, replay in an optimised interpreter
+        ro = common.run_tlc("Checks", "MC_ChecksO.cfg", wd, timeout=1200)
+        if ro.violated:
+            raise common.MachineryError("Checks.tla (DebugOn = FALSE) violates its own invariants: %s" % ro.violated)
+        states += ro.distinct
+        trans += ro.generated
+        import json as _json
+        import subprocess
+        import sys as _sys
+        bo = [x["hist"] for x in ro.records]
+        bo = rng_sample(bo, 1500 if tier == "quick" else len(bo), seed)
+        bf, of = os.path.join(wd, "o_behaviours.json"), os.path.join(wd, "o_result.json")
+        _json.dump(bo, open(bf, "w"))
+        env = dict(os.environ, PYTHONPATH=os.pathsep.join([os.path.dirname(os.path.abspath(__file__)), common.REPO]), VERIF_REPO=common.REPO)
+        p = subprocess.run([_sys.executable, "-O", os.path.join(os.path.dirname(os.path.abspath(__file__)), "c20_o_worker.py"), bf, of, str(seed)],
+                           env=env, stdout=subprocess.PIPE, stderr=subprocess.STDOUT, timeout=1800)
+        if not os.path.exists(of):
+            raise common.MachineryError("python -O worker failed: %s" % p.stdout.decode("utf-8", "replace")[-1500:])
+        resO = _json.load(open(of))
+        os.remove(bf)
+        os.remove(of)
+        nb += resO["n"]
+        for q in resO["violations"]:
+            v.violation("under python -O: " + q["what"], q["case"])
         # T, traces recorded from the implementation
         traces = record_traces(w, 200 if tier == "quick" else 2000, 30, seed)
         bad_out = [t for t in traces if any(str(e["out"]).startswith("other:") for e in t)]
